@@ -56,6 +56,10 @@ class G:
         rng.shuffle(decls)
         return '\n'.join(decls) + '\n'
 
+    def text_reversed(self):
+        """the same declarations in exactly the reverse order (rules bottom-up, directives last)"""
+        return '\n'.join(reversed(self.text().strip().split('\n'))) + '\n'
+
     def rule(self, name):
         for n, e, r in self.rules:
             if n == name:
@@ -369,6 +373,21 @@ class Gen:
             if self.p('rename') and rng.random() < 0.5:
                 b = ('cat', b[1] + [('rename', rng.choice(['bin', 'foo']))])
                 g.features.add('rename')
+            # actions and assertions inside operator branches (behind the operator token)
+            if self.p('assertion') and rng.random() < 0.6:
+                self.num += 1
+                items = list(b[1])
+                items.insert(rng.randint(2, len(items)), ('assert', self.num))
+                b = ('cat', items)
+                g.features.add('assert')
+                g.features.add('pratt_deco')
+            if self.p('action') and rng.random() < 0.6 and not self.in_choice_alt and nm not in self.choice_used:
+                self.num += 1
+                items = list(b[1])
+                items.insert(rng.randint(2, len(items)), ('action', self.num))
+                b = ('cat', items)
+                g.features.add('action')
+                g.features.add('pratt_deco')
             branches.append(b)
         # prefix (interleaved with the other branches when there is no infix operator)
         npre = rng.randint(1, 2) if only_unary else (1 if rng.random() < 0.5 else 0)
